@@ -243,7 +243,8 @@ def check_terms(typ, r, c, e, s, m):
             lhs = [um[i] * mp[i][col] + (ui if i == col else 0) for i in range(p)]
             y = [[ux[i] * mp[i][col] + (us if i == col else 0)] for i in range(p)]
             rhs = mmul(s, y)
-            scale = max([abs(x) for x in lhs] + [abs(x[0]) for x in rhs] + [1e-300])
+            scale = max([abs(um[i] * mp[i][col]) for i in range(p)] + [abs(ui), abs(us)] +
+                        [abs(ux[i] * mp[i][col]) for i in range(p)] + [1e-300])
             for i in range(p):
                 worst = max(worst, abs(lhs[i] - rhs[i][0]) / scale)
         return worst
@@ -743,3 +744,243 @@ def describe(sc):
                 st.fn, "" if st.mapflag else "(NULL map)", st.ports, st.srows, st.scols, st.brows, st.bcols,
                 st.form, " scalar" if st.scalar else " vector") for st in sc.stds],
             "apply_form": sc.apply_form}
+
+
+# ----------------------------------------------------------------------------- running and judging
+def run_script(ctx, exe, text, leak=True, timeout=120):
+    import vplib
+    return vplib.sh([exe], input=text, timeout=timeout, env=ctx.run_env(leak=leak))
+
+
+TOL = 1e-8
+
+
+def judge(sc, recs):
+    """Compare the harness output of scenario_script(sc) with the oracle.
+    Returns (problems, stats); a problem is (class, detail)."""
+    problems = []
+    stats = {"terms": 0.0, "apply": None}
+    adds = [x for k, x in recs if k == "add"]
+    if len(adds) != len(sc.stds):
+        problems.append(("harness", "expected %d add results, got %d" % (len(sc.stds), len(adds))))
+        return problems, stats
+    for st, a in zip(sc.stds, adds):
+        if a.get("rc") != "0":
+            problems.append(("add-rejected", "%s ports=%s S=%dx%d M=%dx%d form=%s map=%d: %s" % (
+                st.fn, st.ports, st.srows, st.scols, st.brows, st.bcols, st.form, st.mapflag, a["line"])))
+    new = [x for k, x in recs if k == "new"]
+    if not new or new[0].get("rc") != "0":
+        problems.append(("new-failed", new[0]["line"] if new else "no output"))
+        return problems, stats
+    if problems:
+        return problems, stats
+    solve = [x for k, x in recs if k == "solve"]
+    if not solve or solve[0].get("rc") != "0":
+        problems.append(("solve-failed", solve[0]["line"] if solve else "no solve output"))
+        return problems, stats
+    tm = [x for k, x in recs if k == "terms"]
+    if not tm or "E" not in tm[0]:
+        problems.append(("no-terms", tm[0]["line"] if tm else "no terms output"))
+        return problems, stats
+    tm = tm[0]
+    if int(tm["type"]) != TYPE_CODE[sc.typ] or int(tm["rows"]) != sc.r or int(tm["cols"]) != sc.c:
+        problems.append(("terms-header", tm["line"]))
+    worst = 0.0
+    worst_at = None
+    for si, st in enumerate(sc.stds):
+        for f in range(sc.F):
+            try:
+                res = check_terms(sc.typ, sc.r, sc.c, tm["E"][f], st.Sfull[f], st.Mfull[f])
+            except (Singular, IndexError, ZeroDivisionError) as e:
+                res = float("inf")
+            if not res <= worst:
+                worst, worst_at = res, (si, f)
+    stats["terms"] = worst
+    if not worst <= TOL:
+        st = sc.stds[worst_at[0]]
+        problems.append(("terms-residual", "saved error terms violate the documented equation for standard %d "
+                         "(%s ports=%s) at frequency %d: relative residual %.3g" % (
+                             worst_at[0], st.fn, st.ports, worst_at[1], worst)))
+    ap = [x for k, x in recs if k == "apply"]
+    if not ap:
+        problems.append(("no-apply", "no apply output"))
+        return problems, stats
+    ap = ap[0]
+    if apply_accepts(sc.r, sc.c):
+        if "S" not in ap:
+            problems.append(("apply-failed", ap["line"]))
+        else:
+            w = 0.0
+            for f in range(sc.F):
+                flat = [x for row in sc.dut[f] for x in row]
+                got = ap["S"][f]
+                if len(got) != len(flat):
+                    w = float("inf")
+                    break
+                d = max(abs(a - b) for a, b in zip(flat, got)) / max(1.0, max(abs(x) for x in flat))
+                if not d <= w:
+                    w = d
+            stats["apply"] = w
+            if not w <= TOL:
+                problems.append(("apply-mismatch", "applied S differs from the DUT's S: relative error %.3g" % w))
+    else:
+        if ap.get("rc") != "-1" or ap.get("errno") != "EINVAL":
+            problems.append(("apply-not-refused", ap["line"]))
+    return problems, stats
+
+
+def outputs_differ(recs1, recs2, tol=1e-9):
+    """sensitivity test: relative difference of terms / applied S between two runs"""
+    worst = 0.0
+    for (k1, r1), (k2, r2) in zip(recs1, recs2):
+        for key in ("E", "S"):
+            if key in r1 and key in r2:
+                for a, b in zip(r1[key], r2[key]):
+                    sc = max([abs(x) for x in a] + [1.0])
+                    if len(a) != len(b):
+                        return float("inf")
+                    for x, y in zip(a, b):
+                        d = abs(x - y) / sc
+                        if not d <= worst:
+                            worst = d
+            elif (key in r1) != (key in r2):
+                return float("inf")
+    return worst
+
+
+# ----------------------------------------------------------------------------- structural correspondence
+def gen_struct_case(rng, typ, r, c, nadds, npar=4, allow_bad=True):
+    """Random sequence of vnacal_new_add_* calls (valid and invalid) for the structural tie.
+    Returns a dict with the C script lines (without `new`) and the model lines."""
+    p = max(r, c)
+    tokens = ["Z", "O", "S"] + ["p%d" % i for i in range(npar)]
+    handle = {"Z": 0, "O": 1, "S": 2}
+    for i in range(npar):
+        handle["p%d" % i] = 3 + i
+    sixteen = is_16(typ)
+    adds = []
+    for _ in range(nadds):
+        fn = rng.choice(["sr", "dr", "th", "ln", "mm", "mm"])
+        bad = allow_bad and rng.random() < 0.25
+        if fn == "sr":
+            k, sr, sc, diag = 1, 1, 1, 1
+        elif fn == "dr":
+            k, sr, sc, diag = 2, 2, 2, 1
+        elif fn in ("th", "ln"):
+            k, sr, sc, diag = 2, 2, 2, 0
+        else:
+            k = rng.randint(1, p)
+            sr = sc = k
+            diag = 0
+            if sixteen and rng.random() < 0.4:
+                if is_t(typ):
+                    sc = rng.randint(1, k)
+                else:
+                    sr = rng.randint(1, k)
+            if bad and rng.random() < 0.3:
+                sr = rng.randint(0, p + 1)
+                sc = rng.randint(0, p + 1)
+                if not sixteen:
+                    sc = sr         # rectangular S on a diagonal type runs into an assert (see design notes)
+                k = max(sr, sc)
+        if k > p and fn != "mm":
+            # the entry point needs more ports than the VNA has: still a legal call, must be refused
+            pass
+        ports = rng.sample(range(1, p + 1), min(k, p))
+        while len(ports) < k:
+            ports.append(rng.randint(1, p))          # duplicates -> refused
+        if bad and rng.random() < 0.4 and k > 0:
+            ports[rng.randrange(k)] = rng.choice([0, -1, p + 1, ports[0]])
+        mapflag = 1
+        if fn == "mm" and rng.random() < 0.3:
+            mapflag = 0
+            if sr == p and sc == p:
+                ports = list(range(1, p + 1))
+        # b dims
+        if typ == "T16":
+            minr, minc = sr, c
+        elif typ == "U16":
+            minr, minc = r, sc
+        else:
+            minr, minc = max(sr, sc), max(sr, sc)
+        br = rng.choice([r, minr])
+        bc = rng.choice([c, minc])
+        if bad and rng.random() < 0.3:
+            br = rng.randint(0, p + 1)
+        if bad and rng.random() < 0.3:
+            bc = rng.randint(0, p + 1)
+        ab = rng.random() < 0.4
+        ar = 1 if is_col(typ) else bc
+        ac = bc
+        if ab and bad and rng.random() < 0.3:
+            ar = rng.randint(0, p + 1)
+        ns = (min(sr, sc) if diag else sr * sc) if fn in ("sr", "dr", "mm") or fn == "ln" else 0
+        if fn == "th":
+            toks = ["Z", "O", "O", "Z"]
+        elif fn in ("sr", "dr"):
+            toks = [rng.choice(tokens) for _ in range(k)]
+        elif fn == "ln":
+            toks = [rng.choice(tokens) for _ in range(4)]
+        else:
+            toks = [rng.choice(tokens) for _ in range(max(sr, 0) * max(sc, 0))]
+            # a diagonal type needs the cells of connected ports: leave them all non-NULL
+        adds.append({"fn": fn, "sr": sr, "sc": sc, "diag": diag, "ports": ports, "mapflag": mapflag,
+                     "br": br, "bc": bc, "ab": ab, "ar": ar, "ac": ac, "toks": toks})
+    return adds, handle
+
+
+def struct_c_line(typ, a, F=1):
+    def mcells(rows, cols, ident_):
+        out = []
+        for i in range(max(rows, 0)):
+            for j in range(max(cols, 0)):
+                v = (1.0 if (i == j or is_col(typ)) else 0.0) if ident_ else 0.25 + 0.125 * i - 0.0625 * j
+                out.append(" ".join("%s %s" % (hx(v), hx(0.0)) for _ in range(F)))
+        return " ".join(out)
+    if a["ab"]:
+        head = "add 0 %s ab %d %d %d %d %s %s" % (a["fn"], a["ar"], a["ac"], a["br"], a["bc"],
+                                                 mcells(a["ar"], a["ac"], True), mcells(a["br"], a["bc"], False))
+    else:
+        head = "add 0 %s m 0 0 %d %d %s" % (a["fn"], a["br"], a["bc"], mcells(a["br"], a["bc"], False))
+    fn = a["fn"]
+    if fn == "sr":
+        tail = "%s %d" % (a["toks"][0], a["ports"][0])
+    elif fn == "dr":
+        tail = "%s %s %d %d" % (a["toks"][0], a["toks"][1], a["ports"][0], a["ports"][1])
+    elif fn == "th":
+        tail = "%d %d" % (a["ports"][0], a["ports"][1])
+    elif fn == "ln":
+        tail = "%s %d %d" % (" ".join(a["toks"]), a["ports"][0], a["ports"][1])
+    else:
+        np_ = max(a["sr"], a["sc"])
+        tail = "%d %d %s %d" % (a["sr"], a["sc"], " ".join(a["toks"]), a["mapflag"])
+        if a["mapflag"]:
+            tail += " " + " ".join(str(q) for q in a["ports"][:max(np_, 0)])
+    return (head + " " + tail).replace("  ", " ")
+
+
+def struct_model_line(a, handle):
+    mp = a["ports"][:max(a["sr"], a["sc"], 0)] if a["mapflag"] else []
+    s = [handle[t] for t in a["toks"]]
+    return "add %d %d %d %d %d %d %d %d %d %d %s %d %s" % (
+        1 if a["ab"] else 0, a["ar"] if a["ab"] else 0, a["ac"] if a["ab"] else 0, a["br"], a["bc"],
+        a["sr"], a["sc"], a["diag"], a["mapflag"], len(mp), " ".join(str(x) for x in mp),
+        len(s), " ".join(str(x) for x in s))
+
+
+def model_driver(ctx, name="drv_calcore"):
+    """Extracted-model driver.  vplib's staleness rule (any .v file under coq/ newer than the binary)
+    rebuilds every driver; this model depends only on the files below, so it is rebuilt only when one
+    of them is newer than the binary."""
+    import glob
+    import os
+    import vplib
+    exe = os.path.join(vplib.VERIF, "ocaml", "_build", name)
+    deps = [os.path.join(vplib.VERIF, "ocaml", name + ".ml"),
+            os.path.join(vplib.VERIF, "ocaml", "Extract_calcore.v"),
+            os.path.join(vplib.COQDIR, "Gen", "LayoutGen.v")]
+    deps += glob.glob(os.path.join(vplib.COQDIR, "Cal", "TermsModel.v"))
+    deps += glob.glob(os.path.join(vplib.COQDIR, "Cal", "AddModel.v"))
+    if os.path.exists(exe) and all(os.path.getmtime(d) <= os.path.getmtime(exe) for d in deps if os.path.exists(d)):
+        return exe
+    return ctx.ocaml_driver(name)
